@@ -1451,12 +1451,38 @@ fn run_encoding_impl(cfg: &ScenCfg, out: &mut RunOut, rtu: bool) {
         let mut got = Vec::new();
         let blocks = count <= 65535 && pdu::within_limits(&req) && pdu::encode_req(&req).len() + 7 > window;
         if cfg.faults && peer.is_some() && blocks && chance(1, 3) {
-            // the peer stops reading for longer than the response time-out: a write that is
-            // blocked half-way must still end as one whole frame once the window opens
+            // the peer stops reading for longer than the response time-out while the write is blocked
+            // half-way: the request fails with an I/O time-out at that instant, the connection is
+            // closed, and what was transmitted is a prefix of the frame with nothing behind it
+            let t0 = kernel::now_ns();
             kernel::settle();
             kernel::advance(1500 * MS);
             kernel::count("fault_peer_stall");
             out.probe("peer_stalled_past_timeout");
+            let p = peer.as_ref().unwrap();
+            let mut got = Vec::new();
+            for _ in 0..400 {
+                kernel::settle();
+                let part = p.take_received();
+                if part.is_empty() {
+                    break;
+                }
+                got.extend(part);
+            }
+            let comps = rig.comps.lock().unwrap()[before..].to_vec();
+            let body = pdu::encode_req(&req);
+            let want = mbap_frame(if got.len() >= 2 { ((got[0] as u16) << 8) | got[1] as u16 } else { 0 }, unit, &body);
+            let d = format!(
+                "kind={} start={} count={} unit={}: the peer (window {} bytes) stopped reading for 1.5 s with the {}-byte frame half written (time-out 1 s): completions {:?}, {} bytes transmitted {}, connection closed by the client: {}",
+                kind, start, count, unit, window, want.len(), comps, got.len(), hex(&got[..got.len().min(24)]), p.remote_closed()
+            );
+            if comps.len() != 1 || comps[0].2 != Outcome::Io("TimedOut".into()) || comps[0].1 != t0 + 1000 * MS {
+                out.violate("C10", "blocked_write_outcome", d.clone());
+                out.violate("C03", "blocked_write_outcome", d);
+            } else if !p.remote_closed() || got.len() >= want.len() || got[..] != want[..got.len()] {
+                out.violate("C03", "blocked_write_leaves_broken_stream", d);
+            }
+            break;
         }
         for _ in 0..400 {
             kernel::settle();
